@@ -58,6 +58,16 @@ def gen_cases(tier, seed):
         if k % 4 == 0:
             # a sweep over the penetration depth on ONE Device object: the run before this one was a screening run of another material
             cases[-1]["history"] = "layer_edited_screening"
+    for k in range(2 if tier == "quick" else 6):
+        # an iteration that DIVERGES (over-relaxed, no momentum damping: the iterates overflow and the mismatch becomes inf / nan):
+        # the step cannot be accepted - the run ends with the error, no frame holds a non-finite or unconverged potential
+        dev = _scr_device(rng, "tiny")
+        dev["terminals"] = []
+        o = dict(solve_time=0.5, dt_init=1e-3, dt_max=0.02, adaptive=bool(k % 2 == 0), save_every=5, field_units="mT", current_units="uA", output="file",
+                 include_screening=True, screening_tolerance=1e-3, max_iterations_per_step=int([400, 250][k % 2]),
+                 screening_step_size=float([20.0, 50.0][k % 2]), screening_step_drag=1.0)
+        drive = {"A": S.field_spec(rng, dev, o, "uniform", b=0.3)}
+        cases.append({"layer": "L2", "kind": "screening", "diverging": True, "device": dev, "options": o, "drive": drive, "monitors": ["screening"], "cost": 40})
     nw = 2 if tier == "quick" else 10
     for k in range(nw):
         # very weak drive: the induced potential is many orders below xi*Bc2, the convergence test is still a relative one
@@ -80,7 +90,7 @@ def gen_cases(tier, seed):
     for k in range(m):
         dev = _scr_device(rng, "small")
         o = S.base_options(rng, adaptive=True, steps=60)
-        drive = {"A": S.field_spec(rng, dev, o, "uniform", b=0.3)}
+        drive = {"A": S.field_spec(rng, dev, o, ["ramp", "uniform"][k % 2], b=0.3)}  # (a time-dependent potential is stored per frame, next to the induced one)
         cases.append({"layer": "L2", "kind": "off", "device": dev, "options": o, "drive": drive, "monitors": ["screening"], "cost": 5})
     for k in range(1 if tier == "quick" else 6):
         # screening off, started from a seed solution that was computed WITH screening
@@ -150,13 +160,25 @@ def _kernel_case(spec):
             off = np.abs(sites).max() * 10.0 ** rng.uniform(2, 5) * np.array([np.cos(ang_), np.sin(ang_)])
             sites = sites + off
             pts = pts + off
+        int_sites = False
+        if i % 5 == 4:
+            # lattice / grid coordinates handed over as INTEGERS (a legitimate point set): distances are real numbers all the same
+            sites = np.unique(rng.integers(-40, 40, (n, 2)), axis=0).astype(np.int64)
+            n = len(sites)
+            pts = rng.uniform(-45, 45, (m, 2))
+            int_sites = True
         d = np.hypot(pts[:, None, 0] - sites[None, :, 0], pts[:, None, 1] - sites[None, :, 1])
         if d.min() == 0:
             continue
         J = rng.normal(size=(n, 2)) * 10.0 ** rng.uniform(-3, 3)
         areas = 10.0 ** rng.uniform(-3, 1, n)
         out = np.full((m, 2), np.nan)
-        get_A_induced_numba(J, areas, sites, pts, out)
+        try:
+            get_A_induced_numba(J, areas, sites, pts, out)
+        except TypeError:
+            if not int_sites:
+                raise
+            continue  # (a kernel that declines integer-typed coordinates outright has not answered wrongly)
         ref = np.einsum("ij,jk->ik", (areas[None, :] / d), J)
         mag = np.einsum("ij,jk->ik", (areas[None, :] / d), np.abs(J)) + 1e-300
         r = float(np.max(np.abs(out - ref) / mag))
